@@ -175,6 +175,22 @@ def read(repo="/repo"):
     return guard_kinds, fp_kinds, flags
 
 
+ORIGINAL_FLAGS = {f: False for f in FLAGS}
+ORIGINAL_GUARD = ["LT", "LE", "EQ"]
+
+
+def fallback(repo="/repo"):
+    """configuration of the pinned commit (used only when `read` fails, so that the oracle's violations are classified
+    against a defined baseline instead of whatever the previous run left in Gen/); uses_fp labels from the source if readable"""
+    try:
+        ex = strip_comments(open(os.path.join(repo, "src", "expression.cpp")).read())
+        _, runs = split_cases(norm(function_body(ex, r"bool\s+expression_t::uses_fp\s*\(\s*\)\s*const\s*\{")))
+        fp = max(runs, key=len) if runs else []
+    except Exception:  # noqa
+        fp = []
+    return ORIGINAL_GUARD, fp, dict(ORIGINAL_FLAGS)
+
+
 def lean_text(guard_kinds, fp_kinds, flags, known_kinds):
     for k in guard_kinds + fp_kinds:
         if k not in known_kinds:
